@@ -208,6 +208,11 @@ def run(out, tier):
     inproc = {}
     if harness:
         inproc = store_ops.run_inprocess(out, "C07", 150 if tier == "quick" else 5000, harness, findings, local_only=True)
+        # storage faults of the remote half (RemoteWrapper tees every Set into the local and the remote store): fixed cases with a
+        # blob larger than one copy chunk and a fault on exactly one writer + random faulted sequences; the digest audit of
+        # store_ops.oracles decides (every blob visible under a digest, in any store, has that content)
+        inproc_remote = store_ops.run_inprocess(out, "C07", 60 if tier == "quick" else 2000, harness, findings, local_only=False)
+        inproc["remote_wrapper_sequences"] = {k: inproc_remote.get(k) for k in ("sequences", "ops", "faulted_calls", "oracle_failures", "mismatching_sequences")}
     if not harness:
         out.violation("the audit harness does not build against the current sources; no crash run can be judged",
                       {"correspondence": "harness/go/store audit"}, no_input=True)
